@@ -39,6 +39,10 @@ CHECKS = {
    technique="deadline oracle with margins: stored expiry cross-checked against [call+ttl, return+ttl], reads wholly before and observers wholly after the deadline, white-box eviction labelling, stall detector; expiry bookkeeping sequences",
    text="Grid of option form {EX, PX, EXAT, PXAT, DMap default TTL, Expire, PExpire} x set path {EO,EN,CC,RO,RN,PL} x observer {Get, GetPut old value, Incr base, NX, XX, Expire} with rotating observer path and ttl 400/700/1200 ms, each on a fresh key, under eager (P=3, 8 eviction workers) and rare (P=271, 1 worker) eviction and ReplicaCount 1-2: the stored expiry must match the option, a read wholly before deadline-150 ms must see the value, the observer wholly after deadline+150 ms must behave as on an absent key whether or not eviction already removed it. Bookkeeping sequences per path: Incr/Decr keep the expiry (±5 ms), Expire replaces it and keeps the value, plain Put and GetPut clear it.",
    note="A violation smaller than the 150 ms margin is invisible; stalled cases (scheduling delay > 50 ms) and unstable membership are inconclusive."),
+ "C05": dict(category="fault_enumeration", design="DESIGN.md §3 C05",
+   technique="fault enumeration over (R,W,RQ) x subsets of unreachable backup owners with an outcome oracle computed from reachable copies and a white-box copy count; member-count starvation with per-command refusal check and state digest",
+   text="Every (ReplicaCount, WriteQuorum, ReadQuorum) with 1<=W,RQ<=R<=3 (quick: R<=2) on R+1 members x every subset of the focus partition's backup owners made unreachable (RESP listener and connections closed while the member stays in the member list): Put and Get through the owner and a reachable non-owner (embedded and raw RESP) must be acknowledged / answered iff 1 + reachable backups >= the quorum, otherwise fail with exactly the write-/read-quorum error; acknowledged Puts must have stored >= W copies (counted white-box). Member-count quorum 2 and 3 on 3 members: after graceful departures every one of 32 commands on a fresh connection and NewDMap must be refused with the cluster-quorum error and the member's complete stored state (digest over all fragments) must be unchanged.",
+   note="Unreachability is produced by closing the RESP listener; for a non-existent key the error class of Get is not judged; INTERNAL.NODE.UPDATEROUTING is exempt by design."),
 }
 
 NOT_BUILT_REASON = "check not built yet (work in progress in this session); not claimed until its monitor is silent on the unchanged tree"
